@@ -41,7 +41,126 @@ fn e<E: core::fmt::Debug>(step: &str) -> impl Fn(E) -> String + '_ {
     move |x| format!("{step}: {x:?}")
 }
 
+/// Real restart: this process saves a participant's state to a file; *another process with another history* (the
+/// driver starts it with the opposite `--prelude` setting) decodes it and continues. Everything it then produces must
+/// equal what the saving process computed from its in-memory state.
+fn xproc_scenario<C: Suite>(seed: u64) -> Option<(BTreeMap<String, (Vec<u8>, String)>, BTreeMap<String, Vec<u8>>)> {
+    let mut rng = TraceRng::from_parts(&[b"c13-xproc", &seed.to_le_bytes(), C::NAME.as_bytes()]);
+    let mut st: BTreeMap<String, (Vec<u8>, String)> = BTreeMap::new();
+    let mut ex: BTreeMap<String, Vec<u8>> = BTreeMap::new();
+    fn put<C: Suite, T: Wire<C>>(st: &mut BTreeMap<String, (Vec<u8>, String)>, k: &str, v: &T) -> Option<()> {
+        st.insert(k.to_string(), (v.enc().ok()?, v.to_json().ok()?));
+        Some(())
+    }
+    let g = dealer_group::<C>(3, 2, None, None, &mut rng).ok()?;
+    let (me, other) = (g.ids[0], g.ids[2]);
+    let sess = sign_session(&g, &[me, other], b"resume me elsewhere", &mut rng).ok()?;
+    put::<C, _>(&mut st, "key_package", &g.kps[&me])?;
+    put::<C, _>(&mut st, "public_key_package", &g.pkp)?;
+    put::<C, _>(&mut st, "secret_share", &g.shares[&me])?;
+    put::<C, _>(&mut st, "signing_nonces", &sess.nonces[&me])?;
+    put::<C, _>(&mut st, "signing_package", &sess.pkg)?;
+    put::<C, _>(&mut st, "share_of_other", &sess.shares[&other])?;
+    put::<C, _>(&mut st, "identifier_me", &me)?;
+    put::<C, _>(&mut st, "identifier_other", &other)?;
+    ex.insert("signature_share".into(), sess.shares[&me].enc().ok()?);
+    ex.insert("signature".into(), C::api_aggregate(&sess.pkg, &sess.shares, &g.pkp).ok()?.enc().ok()?);
+    ex.insert("key_package".into(), g.kps[&me].enc().ok()?);
+    let ids = [me, other];
+    let run = dkg_rounds::<C>(2, 2, &ids, &mut rng).ok()?;
+    put::<C, _>(&mut st, "dkg_round1_secret", &run.r1_secret[&me])?;
+    put::<C, _>(&mut st, "dkg_round2_secret", &run.r2_secret[&me])?;
+    put::<C, _>(&mut st, "dkg_round1_package_of_other", &run.r1_pkgs[&other])?;
+    put::<C, _>(&mut st, "dkg_round2_package_for_me", &run.r2_pkgs[&other][&me])?;
+    ex.insert("dkg_round2_package_for_other".into(), run.r2_pkgs[&me][&other].enc().ok()?);
+    let (r1, r2) = dkg_inbox(&run, &me);
+    let (kp, pkp) = C::api_dkg_part3(&run.r2_secret[&me], &r1, &r2).ok()?;
+    ex.insert("dkg_key_package".into(), kp.enc().ok()?);
+    ex.insert("dkg_public_key_package".into(), pkp.enc().ok()?);
+    Some((st, ex))
+}
+
+fn xproc_save<C: Suite>(ctx: &mut Ctx) {
+    let Some((st, ex)) = xproc_scenario::<C>(ctx.seed) else { return ctx.viol("honest-run-failed", "cross-process", json!({})) };
+    let file = ctx.out_dir.join(format!("C13.xproc.{}.{}.json", C::NAME, ctx.shard));
+    let v = json!({"suite": C::NAME, "seed": ctx.seed, "saver_prelude": ctx.notes.get("prelude_suite"),
+        "states": st.iter().map(|(k, (b, j))| (k.clone(), json!({"bin": hex::encode(b), "json": j}))).collect::<serde_json::Map<_, _>>(),
+        "expected": ex.iter().map(|(k, b)| (k.clone(), json!(hex::encode(b)))).collect::<serde_json::Map<_, _>>()});
+    std::fs::write(file, serde_json::to_vec(&v).unwrap()).ok();
+    ctx.count("cross_process_states_saved");
+}
+
+pub fn xproc_resume<C: Suite>(ctx: &mut Ctx, file: &str) {
+    let Ok(txt) = std::fs::read_to_string(file) else { return };
+    let Ok(v) = serde_json::from_str::<serde_json::Value>(&txt) else { return };
+    ctx.item(&format!("cross-process resume of {file}"));
+    let here = ctx.notes.get("prelude_suite").cloned();
+    for how in ["bin", "json"] {
+        let d = |what: &str, extra: serde_json::Value| json!({"what": what, "encoding": how, "saved_by_process_with_prelude": v["saver_prelude"], "resumed_in_process_with_prelude": here, "extra": extra});
+        macro_rules! get {
+            ($k:expr, $t:ty) => {{
+                let e = &v["states"][$k];
+                let r = if how == "bin" { hex::decode(e["bin"].as_str().unwrap_or("")).map_err(|x| x.to_string()).and_then(|b| <$t as Wire<C>>::dec(&b)) } else { <$t as Wire<C>>::from_json(e["json"].as_str().unwrap_or("")) };
+                match r {
+                    Ok(x) => x,
+                    Err(err) => {
+                        ctx.viol("cross-process-resume-failed", &format!("decode/{}", $k), d("state saved by another process does not decode", json!({"err": err})));
+                        continue;
+                    }
+                }
+            }};
+        }
+        let want = |k: &str| hex::decode(v["expected"][k].as_str().unwrap_or("")).unwrap_or_default();
+        let kp = get!("key_package", frost_core::keys::KeyPackage<C>);
+        let pkp = get!("public_key_package", frost_core::keys::PublicKeyPackage<C>);
+        let ss = get!("secret_share", frost_core::keys::SecretShare<C>);
+        let nonces = get!("signing_nonces", frost_core::round1::SigningNonces<C>);
+        let pkg = get!("signing_package", frost_core::SigningPackage<C>);
+        let so = get!("share_of_other", frost_core::round2::SignatureShare<C>);
+        let me = get!("identifier_me", frost_core::Identifier<C>);
+        let other = get!("identifier_other", frost_core::Identifier<C>);
+        let s1 = get!("dkg_round1_secret", dkg::round1::SecretPackage<C>);
+        let s2 = get!("dkg_round2_secret", dkg::round2::SecretPackage<C>);
+        let p1 = get!("dkg_round1_package_of_other", dkg::round1::Package<C>);
+        let p2 = get!("dkg_round2_package_for_me", dkg::round2::Package<C>);
+        let mut outs: Vec<(&str, Result<Vec<u8>, String>)> = vec![];
+        outs.push(("key_package", KeyPackage::<C>::try_from(ss).map_err(|e| format!("{e:?}")).and_then(|k| k.enc())));
+        let sh = C::api_sign(&pkg, &nonces, &kp);
+        outs.push(("signature_share", sh.clone().map_err(|e| format!("{e:?}")).and_then(|s| s.enc())));
+        if let Ok(sh) = sh {
+            let m: IdMap<C, SignatureShare<C>> = [(me, sh), (other, so)].into_iter().collect();
+            outs.push(("signature", C::api_aggregate(&pkg, &m, &pkp).map_err(|e| format!("{e:?}")).and_then(|s| s.enc())));
+        }
+        let r1: IdMap<C, dkg::round1::Package<C>> = [(other, p1)].into_iter().collect();
+        let r2: IdMap<C, dkg::round2::Package<C>> = [(other, p2)].into_iter().collect();
+        outs.push(("dkg_round2_package_for_other", C::api_dkg_part2(s1, &r1).map_err(|e| format!("{e:?}")).and_then(|(_, o)| o[&other].enc())));
+        match C::api_dkg_part3(&s2, &r1, &r2) {
+            Ok((k, p)) => {
+                outs.push(("dkg_key_package", k.enc()));
+                outs.push(("dkg_public_key_package", p.enc()));
+            }
+            Err(e) => outs.push(("dkg_key_package", Err(format!("{e:?}")))),
+        }
+        for (k, r) in outs {
+            ctx.count("cross_process_outputs_compared");
+            match r {
+                Ok(b) if b == want(k) => {}
+                Ok(b) => ctx.viol("cross-process-output-differs", k, d("output of the resumed process differs from the saving process", json!({"got": hex::encode(&b), "want": hex::encode(want(k))}))),
+                Err(e) => ctx.viol("cross-process-resume-failed", k, d("a step failed in the resumed process", json!({"err": e}))),
+            }
+        }
+        ctx.class(format!("cross-process/{how}/saver={}/resumer={}", v["saver_prelude"].as_str().unwrap_or("none"), here.as_ref().and_then(|x| x.as_str()).unwrap_or("none")));
+    }
+    ctx.count("cross_process_resumes");
+}
+
 pub fn run<C: Suite>(ctx: &mut Ctx) {
+    // two adjacent items, so that one lands in a process that used another ciphersuite first and one in a plain process
+    for k in 0..2 {
+        if ctx.item(&format!("cross-process save #{k}")) {
+            ctx.guard(|ctx| xproc_save::<C>(ctx));
+        }
+    }
     let slow = C::NAME == "ed448";
     let shapes_v: Vec<(u16, u16)> = match (ctx.quick(), slow) {
         (true, true) => vec![(2, 2), (3, 2)],
